@@ -96,7 +96,7 @@ def cmparr_contract(wits):
 
 # ------------------------------------------------------------------------------------------------ sort: specification and theory
 HASNAN = Function('HASNAN', IntSort(), BoolSort())          # _has_nan's own contract: a NaN at some depth
-M = Int('M')                                                # common length of the tuples in the list handed to sort
+COMPAT = Function('COMPAT', IntSort(), IntSort(), BoolSort())  # spec predicate: two values of sort's universe of compatible shape
 
 
 def HASNAN_unf(h):
@@ -115,21 +115,56 @@ def sort_scalar(h):
     return And(tv.tag_in(h, (NONE_T, INT_T, FLOAT_T, STR_T, DT_T)), Implies(tag(h) == FLOAT_T, Or(fk(h) == FIN, fk(h) == NAN)))
 
 
-def sort_elem(h):
-    j = Int('j!se')
-    return Or(sort_scalar(h), And(tag(h) == TUPLE_T, ln(h) == M, ForAll([j], Implies(And(0 <= j, j < M), sort_scalar(at(h, j))), patterns=[at(h, j)])))
+def COMPAT_unf(a, b):
+    """sort's quantifier, generalised: scalars are None, ints, finite floats, NaN, strings, datetimes; two sequences of one type
+    must have equal length and pairwise compatible elements (equal-length tuples of scalars, and any nesting of them);
+    a scalar next to a sequence, or a list next to a tuple, is unconstrained (Python's < is undefined between them)"""
+    j = Int('j!cp')
+    return If(And(is_scalar(a), is_scalar(b)), And(sort_scalar(a), sort_scalar(b)),
+              If(And(is_seq(a), is_seq(b), tag(a) == tag(b)),
+                 And(ln(a) == ln(b), ForAll([j], Implies(And(0 <= j, j < ln(a)), COMPAT(at(a, j), at(b, j))), patterns=[COMPAT(at(a, j), at(b, j))])),
+                 True))
 
 
-def lemma_scalar(p, q):
-    """on NaN-free scalars of sort's universe: cmp is 0 exactly on identical-or-== values, and wherever Python's < is defined
-    it says what cmp says"""
-    return Implies(And(inU(p), inU(q), sort_scalar(p), sort_scalar(q), Not(is_nan(p)), Not(is_nan(q))),
-                   And((CMP(p, q) == 0) == tv.same_elem(p, q), Implies(tv.lt_defined(p, q), tv.py_lt(p, q) == (CMP(p, q) < 0))))
+def COMPAT_DEF():
+    a, b = Ints('a!cd b!cd')
+    return ForAll([a, b], Implies(And(inU(a), inU(b)), COMPAT(a, b) == COMPAT_unf(a, b)), patterns=[COMPAT(a, b)])
 
 
-def lemma_elem(a, b):
-    return Implies(And(inU(a), inU(b), sort_elem(a), sort_elem(b), Not(HASNAN(a)), Not(HASNAN(b))),
-                   Implies(tv.lt_defined(a, b), tv.py_lt(a, b) == (CMP(a, b) < 0)))
+def PYEQC_unf(a, b):
+    """CPython's tuple / list ==: same type, same length, elements identical or == (trusted axiom, instance for a, b)"""
+    j = Int('j!pe')
+    return And(tag(a) == tag(b), ln(a) == ln(b),
+               ForAll([j], Implies(And(0 <= j, j < ln(a)), tv.same_elem(at(a, j), at(b, j))), patterns=[z3.MultiPattern(at(a, j), at(b, j))]))
+
+
+def LEMMA(a, b):
+    """on NaN-free values of compatible shape: cmp is 0 exactly on identical-or-== values, and wherever Python's < is defined it
+    says what cmp says"""
+    return Implies(And(inU(a), inU(b), COMPAT(a, b), Not(HASNAN(a)), Not(HASNAN(b))),
+                   And((CMP(a, b) == 0) == tv.same_elem(a, b), Implies(tv.lt_defined(a, b), tv.py_lt(a, b) == (CMP(a, b) < 0))))
+
+
+def sort_pre(xs):
+    i, j = Ints('i!sp j!sp')
+    return [inU(xs), is_seq(xs),
+            ForAll([i, j], Implies(And(0 <= i, i < ln(xs), 0 <= j, j < ln(xs)), COMPAT(at(xs, i), at(xs, j))),
+                   patterns=[z3.MultiPattern(at(xs, i), at(xs, j))])]
+
+
+def sort_contract(calls):
+    """sort(xs) taken by contract (sort.* obligations): a new list, a permutation of xs, non-decreasing under cmp; never raises"""
+    def contract(ex, st, args, kwargs):
+        (a,) = args
+        if a.kind != 'val':
+            raise OutOfSubset('sort by contract on %s' % a.kind)
+        h = named(st, a.t, 'sort_in')
+        ex.oblige(st, 'call.sort.pre.list_of_compatible_values', And(*sort_pre(h)), kind='pre')
+        ex.use('callee contract:sort(xs) returns a permutation of xs that is non-decreasing under cmp and never raises (sort.* obligations)')
+        R, pi, pinv = tv.sorted_result(ex, st, h, lambda p, q: CMP(p, q) <= 0, label='sort')
+        calls.append((h, R, pi, pinv))
+        return V(R)
+    return contract
 
 
 def cmp_top_contract(ex, st, args, kwargs):
@@ -219,7 +254,7 @@ class SortTh(Vals):
             # the comparison supplied is Python's own `<`; the total preorder it must agree with (where defined) is cmp's
             ex.use(tv.SEQ_LT_NOTE)
             ex.use('lemma:native order agrees with cmp on NaN-free elements of sort\'s universe (sort.lemma.* obligations), instantiated for a generic pair')
-            sub.pc.append(lemma_elem(ea, eb))
+            sub.pc.append(LEMMA(ea, eb))
             ex.oblige(sub, 'call.sorted.native_order_agrees_with_cmp_wherever_it_is_defined',
                       Implies(tv.lt_defined(ea, eb), tv.py_lt(ea, eb) == (CMP(ea, eb) < 0)), kind='pre')
             raises = z3.Bool(tv.fresh_name('sorted_raises'))
@@ -444,27 +479,26 @@ def build(ctx):
 
     # ------------------------------------------------------------------ sort: lemmas linking Python's native order with cmp
     def sort_lemmas():
-        p, q = Ints('p q')
-        rel_pq, _, ex_pq, _, _ = run_cmp(ctx, mach, p, q, 'sort.lemma.cmp')
-        ctx.trusted |= ex_pq.trusted
-        wpq = dict(D=D); wpq.update(tv.witness_fields('x', p)); wpq.update(tv.witness_fields('y', q))
-        ctx.post('sort.lemma.native_order_and_equality_agree_with_cmp_on_scalars', pre(p, q) + ex_pq.facts + [rel_pq(CMP(p, q))], lemma_scalar(p, q),
-                 kind='lemma', witness=wpq, replay=rp('sort.lemma.scalar'))
         a, b = Ints('a b')
         rel_ab, _, ex_ab, w_ab, _ = run_cmp(ctx, mach, a, b, 'sort.lemma.cmp')
         ctx.trusted |= ex_ab.trusted
         idx = [w for (_a, _b, _r, w) in w_ab.items] + [tv.FD(a, b)]
-        inst = [lemma_scalar(at(a, w), at(b, w)) for w in idx]
-        wab = dict(D=D, M=M); wab.update(tv.witness_fields('x', a)); wab.update(tv.witness_fields('y', b))
+        small = lambda h: And(inU(h), depth(h) < D)
+        ih = [Implies(And(small(at(a, w)), small(at(b, w))), LEMMA(at(a, w), at(b, w))) for w in idx]
+        wab = dict(D=D); wab.update(tv.witness_fields('x', a)); wab.update(tv.witness_fields('y', b))
         for k in range(3):
             wab.update(tv.witness_fields('x%d' % k, at(a, k))); wab.update(tv.witness_fields('y%d' % k, at(b, k)))
-        ctx.post('sort.lemma.native_order_agrees_with_cmp_on_elements', pre(a, b) + ex_ab.facts + [rel_ab(CMP(a, b)), HASNAN_DEF(),
-                 Implies(And(is_seq(a), is_seq(b)), tv.seq_lt_axiom(a, b))] + inst, lemma_elem(a, b), kind='lemma', witness=wab,
-                 replay=rp('sort.lemma.elem'))
-        ctx.cover('sort.lemma.tuples_premise_satisfiable', pre(a, b) + ex_ab.facts + [rel_ab(CMP(a, b)), HASNAN_DEF(), tv.seq_lt_axiom(a, b), M == 2,
-                  tag(a) == TUPLE_T, tag(b) == TUPLE_T, sort_elem(a), sort_elem(b), Not(HASNAN(a)), Not(HASNAN(b)), tv.lt_defined(a, b), CMP(a, b) < 0,
-                  tv.FD(a, b) == 1] + inst)
-        ctx.trust('definition:CMP(a,b) is the value cmp(a,b) returns - it satisfies the summary of the real body (instances rel(CMP(a,b)) in sort.lemma.*)')
+        both = And(is_seq(a), is_seq(b))
+        defs = [rel_ab(CMP(a, b)), HASNAN_DEF(), COMPAT_DEF(), Implies(both, tv.seq_lt_axiom(a, b)), Implies(both, tv.PYEQC(a, b) == PYEQC_unf(a, b))]
+        hy = pre(a, b) + ex_ab.facts + defs + ih
+        ctx.post('sort.lemma.native_order_and_equality_agree_with_cmp', hy, LEMMA(a, b), kind='lemma', witness=wab, replay=rp('sort.lemma'))
+        ctx.cover('sort.lemma.premise_satisfiable.scalars', hy + [is_scalar(a), is_scalar(b), COMPAT(a, b), Not(HASNAN(a)), Not(HASNAN(b)),
+                                                                  tv.lt_defined(a, b), tag(a) == INT_T, tag(b) == FLOAT_T])
+        ctx.cover('sort.lemma.premise_satisfiable.tuples', hy + [tag(a) == TUPLE_T, tag(b) == TUPLE_T, ln(a) == 2, COMPAT(a, b), Not(HASNAN(a)), Not(HASNAN(b)),
+                                                                 tv.lt_defined(a, b), CMP(a, b) < 0, tv.FD(a, b) == 1])
+        ctx.trust('definition:CMP(a,b) is the value cmp(a,b) returns - it satisfies the summary of the real body (instance rel(CMP(a,b)) in sort.lemma.*)')
+        ctx.trust('axiom:tuple / list == requires the same type and length and compares elements with `a is b or a == b` (CPython)')
+        ctx.trust('spec:COMPAT is defined by structural recursion (well founded on the nesting depth)')
     ctx.guarded('sort.lemma', sort_lemmas)
 
     # ------------------------------------------------------------------ sort: body, given the sorted() axiom
@@ -478,11 +512,10 @@ def build(ctx):
         ex = Exec(ms, [th], inline=inline, name='sort')
         j = Int('j!xs')
         st = State()
-        st.pc += tv.universe_axioms(TAGS) + [inU(xs), is_seq(xs), M >= 0,
-                                              ForAll([j], Implies(And(0 <= j, j < ln(xs)), sort_elem(at(xs, j))), patterns=[at(xs, j)])]
+        st.pc += tv.universe_axioms(TAGS) + sort_pre(xs) + [COMPAT_DEF()]
         hy0 = list(st.pc); base = len(st.pc)
         outs = ex.run_function(st, 'sort', [V(xs)], {})
-        ws = dict(M=M); ws.update(tv.witness_fields('x', xs))
+        ws = dict(); ws.update(tv.witness_fields('x', xs))
         sort_hints = [ln(xs) <= 3, tag(xs) == LIST_T]
         for k in range(3):
             ws.update(tv.witness_fields('x%d' % k, at(xs, k)))
@@ -525,7 +558,8 @@ def build(ctx):
         if nret < 1:
             raise OutOfSubset('sort has no returning path')
         ctx.cover('sort.pre_satisfiable.nan_and_mixed_types', hy0 + [ln(xs) == 3, is_nan(at(xs, 0)), tag(at(xs, 1)) == STR_T, tag(at(xs, 2)) == NONE_T])
-        ctx.cover('sort.pre_satisfiable.tuples', hy0 + [ln(xs) == 2, M == 2, tag(at(xs, 0)) == TUPLE_T, tag(at(xs, 1)) == TUPLE_T, at(xs, 0) != at(xs, 1)])
+        ctx.cover('sort.pre_satisfiable.tuples', hy0 + [ln(xs) == 2, tag(at(xs, 0)) == TUPLE_T, tag(at(xs, 1)) == TUPLE_T, ln(at(xs, 0)) == 2,
+                                                        at(xs, 0) != at(xs, 1), is_nan(at(at(xs, 0), 1))])
     ctx.guarded('sort', sort_section)
 
     ctx.trust('induction schema over the nesting depth (finite, acyclic nesting): the step is discharged with the hypothesis instantiated at '
